@@ -5,7 +5,7 @@
 From Coq Require Import Strings.String.
 From CG3 Require Import Lib.PyZ Lib.Val Lib.PySlice Model.View Model.Serial.
 From CG3 Require Model.IndelMap Spec.IndelMapSpec Spec.SerialSpec.
-From CG3 Require Lib.Rose Model.Tree.
+From CG3 Require Lib.Rose Model.Tree Model.FeatureMap Model.AnnotDb.
 
 Inductive case :=
 | CSeq (st : style) (k : kind) (v : view) (p : list Z)
@@ -16,6 +16,11 @@ Inductive case :=
 | CTable (ix : option (list Z)) (attrs : dict) (cols : list (list Z * list Z * list json))
 | CDarr (names : list (list json)) (arr : json)
 | CNC (args : list json) (kwargs : dict)
+| CDmat (names : list (list Z)) (rows : list (list json)) (invalid : json)
+| CFmap (spans : list FeatureMap.fspan) (plen : Z)
+| CDb (rows : list AnnotDb.row)
+| CSeqDb (k : kind) (v : view) (p : list Z) (rows : list AnnotDb.row)
+| CMolType (label : list Z)
 | CDispatch (reg : list (list Z * list Z)) (types : list (list Z))
 | CRegistry
 | CExpected.
@@ -154,6 +159,11 @@ Definition run_case (c : case) : val :=
   | CTable ix attrs cols => reencode (OTable (mkTab ix attrs (map (fun c => mkCol (fst (fst c)) (snd (fst c)) (snd c)) cols)))
   | CDarr names arr => reencode (ODarr (mkDarr names arr))
   | CNC args kwargs => reencode (ONotCompleted (mkNC args kwargs))
+  | CDmat names rows inv => reencode (ODmat (mkDm names rows inv))
+  | CFmap spans plen => reencode (OFmap (FeatureMap.mk_fmap spans plen))
+  | CDb rows => reencode (ODb [0; 1] rows)
+  | CSeqDb k v p rows => reencode (OSeqDb (mkSeq (mkS v p k true) (Some (zs "s")) []) [0; 1] rows)
+  | CMolType l => reencode (OMolType l)
   | CDispatch reg types =>
       let r := map (fun kf => (fst kf, DOther (snd kf))) reg in
       VL (map (fun t => match dispatch r t with Some f => VS (decoder_name f) | None => VN end) types)
